@@ -38,13 +38,13 @@ JOBS = [
          timeout=900, mem_gb=14, replayer=FZ_C, wip=True, **L9),
     # C10 decoder direction, bounded by complete unwinding on small blocks (no loop contracts applied)
     dict(name='c10_lz4_decoder_accepts_valid', prop='C10', entry='h_lz4_decompress_accepts_every_valid',
-         loop_contracts=False, unwind=45, defines=['CQV_N=10'], level='bounded',
-         bound='compressed block <= 10 bytes (all byte values), destination capacity 40',
+         loop_contracts=False, unwind=9, defines=['CQV_N=4', 'CQV_CAP=8'], level='bounded',
+         bound='compressed block <= 4 bytes (all byte values; only literal-only blocks are valid at this size), destination capacity 8',
          functions=['carquet_lz4_decompress'], trusted=['specs/lz4_spec.h: block validity read from the LZ4 block format document'],
          timeout=900, wip=True, **L10),
     dict(name='c10_lz4_decoder_rejects_invalid', prop='C10', entry='h_lz4_decompress_accepts_only_valid',
-         loop_contracts=False, unwind=45, defines=['CQV_N=6'], level='bounded',
-         bound='compressed block <= 6 bytes (all byte values), destination capacity 40',
+         loop_contracts=False, unwind=9, defines=['CQV_N=4', 'CQV_CAP=8'], level='bounded',
+         bound='compressed block <= 4 bytes (all byte values), destination capacity 8',
          functions=['carquet_lz4_decompress'], trusted=['specs/lz4_spec.h: block validity read from the LZ4 block format document'],
          timeout=900, wip=True,
          note='FINDING: carquet_lz4_decompress accepts blocks the format defines as invalid: zero-length input, a block '
